@@ -277,6 +277,16 @@ def direct_cases(ctx, tab):
         sat = sats[k % len(sats)]
         chan = 3 + (k // len(sats)) % 3
         nums, prt, ict, space, info = gen_pass(rng, ctx.thorough)
+        if (ctx.thorough or getattr(ctx, "escalated", False)) and k < 4:
+            # LONG passes (several thousand lines, a little more than a multiple of 4000 / 4096): the 51-line window runs over
+            # the whole pass - the last lines are smoothed exactly like all others, whatever the length
+            L = [4096, 4000, 8192, 12000][k] + rng.randint(1, 21)
+            n0_, ph_ = rng.choice([1, 3, 700]), rng.randrange(5)
+            nums = list(range(n0_, n0_ + L))
+            prt = [0 if (x - ph_) % 5 == 0 else 380 + 12 * ((x - ph_) % 5) + rng.randint(-2, 2) for x in nums]
+            ict = [rng.randint(480, 520) for _ in nums]
+            space = [rng.randint(985, 995) for _ in nums]
+            info = {"n": L, "n0": n0_, "gaps": False, "phase": ph_, "reset": 0, "kinds": ["long"]}
         # some passes END at the largest line number their 16-bit field can hold (a full-resolution orbit has > 32767 lines;
         # LAC readers accept numbers up to 65534): only the position in the five-line cycle matters, not the magnitude
         r_ = rng.random()
